@@ -120,7 +120,16 @@ func Logf(format string, a ...any) {
 // Run executes body as thread 0 under a fresh scheduler, replaying prefix and
 // taking choice 0 afterwards. It returns when every thread finished, or on
 // deadlock / horizon (remaining threads are aborted).
+// resetHooks run at the start of every execution: shim objects that live in package-level variables of
+// the code under test (a sync.Pool, say) must not carry state from one explored execution into the next.
+var resetHooks []func()
+
+func OnRunStart(f func()) { resetHooks = append(resetHooks, f) }
+
 func Run(prefix []byte, maxSteps int, keepTrace bool, body func()) *Sched {
+	for _, h := range resetHooks {
+		h()
+	}
 	s := &Sched{prefix: prefix, MaxSteps: maxSteps, finished: make(chan struct{}), KeepTrace: keepTrace}
 	if S != nil {
 		panic("csched: nested Run")
